@@ -371,6 +371,41 @@ def r7(ctx):
     ctx.emit('C05-R7', ok, TAGGING, gt, f'task dictionaries carry {sorted(keys)}; all are parameters of run_tagging_task', key='task-fields')
 
 
+@rule('C05', 'C05-R8', 'every record is written exactly once: a fragment joins at most one molecule (shared with C07-R6), so its reads are not emitted '
+                       'with two molecules')
+def r8(ctx):
+    from . import C07
+    from ..core import include
+    include(ctx, C07, [C07.r6], 'C05-R8')
+
+
+@rule('C05', 'C05-R9', 'mate numbers are a function of the slot only: the read in slot 0 of a fragment is flagged read 1 and the read in slot 1 is flagged '
+                       'read 2 on every path (mates that reach the tagger alone keep / regain their number)')
+def r9(ctx):
+    f = ctx.fn(FRAGMENT, 'Fragment.__init__')
+    loops = [l for l in walk_no_nested(f) if isinstance(l, ast.For) and isinstance(l.iter, ast.Call) and dotted(l.iter.func) == 'enumerate' and
+             isinstance(l.target, ast.Tuple) and len(l.target.elts) == 2 and all(isinstance(e, ast.Name) for e in l.target.elts) and
+             any(isinstance(a, ast.Assign) and src(a.targets[0]).endswith('.is_read1') for a in walk_no_nested(l))]
+    if len(loops) != 1:
+        raise AnalysisError('Fragment.__init__: loop that assigns the mate flags not found')
+    l = loops[0]
+    iv, rv = [e.id for e in l.target.elts]
+    for slot, want in ((0, {'is_read1': 'True', 'is_read2': 'False'}), (1, {'is_read1': 'False', 'is_read2': 'True'})):
+        rs = [r for r in explore(l.body, mk_atoms({f'{rv} is None': False}), env0={iv: slot}) if r['kind'] in ('fall', 'continue')]
+        bad = []
+        for r in rs:
+            last = {}
+            for t, v, k in r['stores']:
+                if t in (f'{rv}.is_read1', f'{rv}.is_read2'):
+                    last[t.split('.')[-1]] = v
+            if last != want:
+                bad.append(last)
+        ctx.counters['paths_enumerated'] += len(rs)
+        ctx.emit('C05-R9', bool(rs) and not bad, FRAGMENT, l, f'slot {slot}: every path through the loop body stores {want}' if rs and not bad else
+                 f'slot {slot}: a path leaves the mate flags at {bad[0] if bad else None} (expected {want}): a mate returned alone is written without its mate number',
+                 key=f'mate-flags:slot{slot}', what='Fragment.__init__: the mate flags are not forced from the slot index on every path')
+
+
 META = {
     'text': ('Decides structural necessary conditions of record conservation: in contig-per-process mode every contig the enumerator yields '
              'is put into exactly one job on every path of the construction loop, the shared small-contig job is flushed whenever non-empty, '
